@@ -280,8 +280,8 @@ def gen_client_resolve(rng: random.Random) -> dict:
 class C20(CheckBase):
     pid = "C20"
     level = "exploration"
-    quick_cases = 3200
-    thorough_cases = 48000
+    quick_cases = 9600
+    thorough_cases = 96000
 
     def cases(self, rng: random.Random, tier: str, idx: int) -> Iterable[dict]:
         r = idx % 8
